@@ -14,6 +14,7 @@ import (
 	"time"
 
 	"github.com/gr33nbl00d/caddy-revocation-validator/crl/crlstore"
+	"go.uber.org/zap"
 
 	"verif/harness/derbuild"
 	"verif/harness/origin"
@@ -60,6 +61,7 @@ func C09(c *vk.Ctx) {
 	// part 2
 	walks += c09Validator(c, rng)
 	walks += c09DamagedOpen(c, rng)
+	walks += c09TableBitSweep(c)
 	c.Set("traces_validated_against_impl", int64(walks))
 	c.Set("spec", "CrlStore.tla with Faulty = TRUE (CloseUnder, Corrupt(k)): invariant FailClosed; Revocation.tla verdict composition (any lookup error => handshake rejected)")
 	c.Set("rule", "store level: one case = one edge of the fault-enabled store graph executed on the real backend, all lookups compared; validator level: one case = (backend, fault class, listed/unlisted certificate, strict/lenient) with the fault injected underneath a provisioned validator; violation iff a fault was injected, the specification says 'error', and the real answer is 'not revoked' / the handshake is accepted")
@@ -307,7 +309,25 @@ func c09DamagedOpen(c *vk.Ctx, rng *rand.Rand) int {
 	})
 	c.Set("damaged_open_tables", int64(len(tables)))
 	cases := 0
-	for ti, table := range tables {
+	// damage kinds per table file: the file is gone; or one bit of it is flipped at an offset (spread over the file + seeded)
+	type damage struct {
+		table  string
+		offset int64 // -1: the file is removed
+	}
+	var damages []damage
+	for _, table := range tables {
+		damages = append(damages, damage{table, -1})
+		if fi, err := os.Stat(table); err == nil && fi.Size() > 64 {
+			// one bit in every 97th byte of a tenth of the file, for every tenth: whichever block holds the record of a probe
+			// is damaged in exactly one of the cases (a single flipped bit would have to land on the record of one of 24 probes
+			// among 260 000)
+			for j := 0; j < 10; j++ {
+				damages = append(damages, damage{table, fi.Size() * int64(j) / 10})
+			}
+		}
+	}
+	for ti, dm := range damages {
+		table := dm.table
 		if c.Violations() > 6 {
 			break
 		}
@@ -317,7 +337,22 @@ func c09DamagedOpen(c *vk.Ctx, rng *rand.Rand) int {
 			c.Infra("copy work_dir: %v", err)
 		}
 		rel, _ := filepath.Rel(w.WorkDir, table)
-		os.Remove(filepath.Join(img, rel))
+		what := "table-file-missing-at-open"
+		if dm.offset < 0 {
+			os.Remove(filepath.Join(img, rel))
+		} else {
+			what = "bits-flipped-in-table-file"
+			if f, err := os.OpenFile(filepath.Join(img, rel), os.O_RDWR, 0); err == nil {
+				fi, _ := f.Stat()
+				b := make([]byte, 1)
+				for off := dm.offset + int64(rng.Intn(97)); off < dm.offset+fi.Size()/10 && off < fi.Size(); off += 97 {
+					f.ReadAt(b, off)
+					b[0] ^= 1 << uint(rng.Intn(8))
+					f.WriteAt(b, off)
+				}
+				f.Close()
+			}
+		}
 		w2 := &world.World{Sandbox: sandbox, WorkDir: img, Cfg: world.Cfg{Mode: "crl_only", Storage: "disk", Sig: "none", Fetch: "fetch_actively", CdpStrict: true, Interval: "1h"}}
 		perr := w2.Provision()
 		accepted := []int{}
@@ -333,13 +368,80 @@ func c09DamagedOpen(c *vk.Ctx, rng *rand.Rand) int {
 			w2.Cleanup()
 		}
 		cases++
-		c.Eval(fmt.Sprintf("damaged-open|table=%d/%d", ti, len(tables)))
+		c.Eval(fmt.Sprintf("damaged-open|%d/%d|%s|%d", ti, len(damages), filepath.Base(table), dm.offset))
+		if os.Getenv("VERIF_DEBUG") != "" {
+			fmt.Fprintf(os.Stderr, "DAMAGED %s %s off=%d provision=%v verdicts=%v\n", what, filepath.Base(table), dm.offset, perr, verdicts)
+		}
 		if len(accepted) > 0 {
-			c.Violation("validator:disk:table-file-missing-at-open:listed-accepted",
-				fmt.Sprintf("the store of a CRL with %d entries lost one of its %d table files (%s) while the validator was down; after the restart %d of %d certificates that the CRL lists were accepted (strict mode, nothing can be fetched): %v", n, len(tables), filepath.Base(table), len(accepted), probes, verdicts),
-				map[string]any{"entries": n, "tables": len(tables), "removed": filepath.Base(table), "verdicts": verdicts})
+			c.Violation("validator:disk:"+what+":listed-accepted",
+				fmt.Sprintf("the store of a CRL with %d entries (%d table files) was damaged while the validator was down (%s %s, offset %d); after the restart %d of %d certificates that the CRL lists were accepted (strict mode, nothing can be fetched): %v", n, len(tables), what, filepath.Base(table), dm.offset, len(accepted), probes, verdicts),
+				map[string]any{"entries": n, "tables": len(tables), "file": filepath.Base(table), "offset": dm.offset, "verdicts": verdicts})
 		}
 		os.RemoveAll(sandbox)
 	}
 	return cases
+}
+
+// c09TableBitSweep: store level, exhaustive over byte positions: a small store whose records sit in a table file (after a reopen
+// the journal has been turned into one) is closed; one bit of every byte of that file is flipped in turn on a copy; the store is
+// opened again and the stored keys are looked up. Not opening, an error, or the stored entry are all fine; "not revoked" for a
+// stored entry is the damage turned into an answer (CrlStore.tla: OpenDamaged / Corrupt, FailClosed).
+func c09TableBitSweep(c *vk.Ctx) int {
+	keys := []string{"k1", "k2"}
+	sc := newStoreConc(int(c.Seed))
+	d, err := newStoreDrv("disk", sc)
+	if err != nil {
+		c.Infra("store: %v", err)
+	}
+	defer d.close()
+	for _, op := range [][]any{{"start", "v1"}, {"locs", "v1"}, {"insert", "k1", "v1"}, {"insert", "k2", "v2"}, {"reopen"}, {"reopen"}} {
+		if err := d.apply(op); err != nil {
+			c.Infra("table sweep setup %v: %v", op, err)
+		}
+	}
+	d.st.Close()
+	var tables []string
+	filepath.Walk(d.dir, func(p string, info os.FileInfo, err error) error {
+		if err == nil && !info.IsDir() && filepath.Ext(p) == ".ldb" {
+			tables = append(tables, p)
+		}
+		return nil
+	})
+	if len(tables) == 0 {
+		c.Drift("table-sweep-no-table-file")
+		return 0
+	}
+	n := 0
+	for _, table := range tables {
+		raw, _ := os.ReadFile(table)
+		step := 1
+		if len(raw) > 1500 && !c.Thorough() {
+			step = len(raw) / 1500
+		}
+		for off := 0; off < len(raw) && c.Violations() <= 6; off += step {
+			img, _ := os.MkdirTemp("", "verif.sweep.")
+			exec.Command("cp", "-r", filepath.Join(d.dir, d.id), filepath.Join(img, d.id)).Run()
+			mut := append([]byte{}, raw...)
+			mut[off] ^= 1 << uint(off%8)
+			os.WriteFile(filepath.Join(img, d.id, filepath.Base(table)), mut, 0o644)
+			f2, err := crlstore.CreateStoreFactory(crlstore.LevelDB, img, zap.NewNop())
+			if err == nil {
+				if st, err := f2.CreateStore(d.id, false); err == nil {
+					o := (&storeDrv{backend: "disk", factory: f2, dir: img, id: d.id, st: st, sc: sc}).observe(keys)
+					for _, k := range keys {
+						if o.Look[k] == "notrevoked" {
+							c.Violation("store:disk:bit-flipped-in-table-file:stored-entry-not-revoked",
+								fmt.Sprintf("one bit of byte %d of the table file %s was flipped while the store was closed; after opening it again the lookup of the stored entry %s answers 'not revoked' (no error)", off, filepath.Base(table), k),
+								map[string]any{"offset": off, "bit": off % 8, "file_len": len(raw), "key": k})
+						}
+					}
+					st.Close()
+				}
+			}
+			n++
+			c.Eval(fmt.Sprintf("table-sweep|%s|%d", filepath.Base(table), off))
+			os.RemoveAll(img)
+		}
+	}
+	return n
 }
